@@ -98,6 +98,11 @@ def materialise(entries):
                     anc, level = anc.rsplit(".", 1)[0], level + 1
                 if not done:
                     facts.append(("import", t))
+        # imports of names that are not scanned modules (a module that does not exist on disk, a
+        # function of the package): they must add neither a module nor an import; every file imports
+        # the same two names, so "the second import of a phantom" occurs as soon as there are two files
+        facts.append(("import", "top.zz_missing.deep"))
+        facts.append(("rel", 1, "", ("zz_name",)))
         files[rel] = facts
     return files, dirs
 
